@@ -10,8 +10,8 @@ THEOREMS = {
     "C04": ["Cntgs.C04.fields_ordered", "Cntgs.C04.span_sizes", "Cntgs.C04.element_extent", "Cntgs.C04.first_field_at_element_start"],
     "C13": ["Cntgs.C13.ne_is_negation", "Cntgs.C13.elem_eq_iff_content_generic", "Cntgs.C13.elem_eq_refl_generic",
             "Cntgs.C13.elem_eq_symm_generic", "Cntgs.C13.vec_eq_needs_equal_size", "Cntgs.C13.vec_eq_empty"],
-    "C14": ["Cntgs.C14.elem_operators", "Cntgs.C14.vec_operators", "Cntgs.C14.elem_lt_strict", "Cntgs.C14.vec_lt_strict",
-            "Cntgs.C14.elem_incomparable_trans", "Cntgs.C14.vec_lt_is_lexicographical"],
+    "C14": ["Cntgs.C14.elem_operators", "Cntgs.C14.vec_operators", "Cntgs.C14.elem_lt_strict", "Cntgs.C14.vec_lt_irrefl_asymm",
+            "Cntgs.C14.vec_lt_trans_fastpath", "Cntgs.C14.vec_lt_not_transitive", "Cntgs.C14.vec_lt_is_lexicographical"],
     "C15": ["Cntgs.C15.toInt_mod", "Cntgs.C15.memcpy_sound", "Cntgs.C15.stored_is_converted", "Cntgs.C15.lvalue_not_moved",
             "Cntgs.C15.rvalue_moved"],
     "C11": ["Cntgs.C11.assign_copies_all_fields", "Cntgs.C11.copy_assign_keeps_source", "Cntgs.C11.move_assign_source",
@@ -188,7 +188,8 @@ STREAMS = {
     "C17": stream_faults,
     "C11": stream_refiter, "C12": stream_element,
     "C13": stream_compare, "C14": stream_compare,
-    "C01": stream_history, "C02": stream_layout, "C03": stream_layout, "C04": stream_layout, "C05": stream_layout,
+    "C01": stream_history, "C02": stream_layout, "C03": stream_layout, "C04": stream_layout,
+    "C05": lambda seed, tier: stream_layout(seed, tier) + stream_alloc(seed, tier),
     "C06": stream_history, "C10": stream_history, "C16": stream_history, "C18": stream_history,
     "C07": stream_alloc, "C08": stream_alloc, "C09": stream_alloc,
 }
